@@ -122,6 +122,13 @@ func (s *objectStore) delete(o Object) {
 	}
 }
 
+func (s *objectStore) drop(of Object) {
+	s.Lock()
+	defer s.Unlock()
+
+	delete(s.m, stype(of))
+}
+
 func (s *objectStore) count(of Object) (n int) {
 	s.RLock()
 	defer s.RUnlock()
@@ -236,8 +243,12 @@ func (db *DB) startAsyncWritesRoutine(s *Schema) {
 		go func() {
 			for db.ctx.Err() == nil {
 				for slept := time.Duration(0); ; slept += step {
-					n := db.safeCountPendingAsyncW(s.object)
-					if n >= s.AsyncWrites.Threshold || slept >= s.AsyncWrites.Timeout {
+					n, async := db.safeAsyncState(s)
+					// asynchronous writes have been disabled by Create
+					if async == nil {
+						return
+					}
+					if n >= async.Threshold || slept >= async.Timeout {
 						// enter critical section
 						db.Lock()
 						// checking db.ctx not to race with db.Close function
@@ -257,10 +268,16 @@ func (db *DB) startAsyncWritesRoutine(s *Schema) {
 	}
 }
 
-func (db *DB) safeCountPendingAsyncW(of Object) (n int) {
+// safeAsyncState returns the number of pending writes and a copy of the
+// current async settings of the schema, nil if async writes are disabled
+func (db *DB) safeAsyncState(s *Schema) (n int, async *Async) {
 	db.RLock()
 	defer db.RUnlock()
-	return db.asyncw.count(of)
+	if s.asyncWritesEnabled() {
+		a := *s.AsyncWrites
+		async = &a
+	}
+	return db.asyncw.count(s.object), async
 }
 
 func (db *DB) schema(of Object) (s *Schema, err error) {
@@ -538,10 +555,26 @@ func (db *DB) Create(o Object, s Schema) (err error) {
 	case err == nil:
 		s.initialize(db, o)
 
+		// pending writes must reach the disk before async writes are
+		// switched off, nothing would flush or read them afterwards
+		if es.asyncWritesEnabled() && !s.asyncWritesEnabled() {
+			if err = es.isCompatibleWith(&s); err != nil {
+				return
+			}
+			if err = db.flushAll(o); err != nil {
+				return
+			}
+		}
+
 		// the schema is existing and we don't need to build a new one
 		// update existing schema with changes
 		if err = es.update(&s); err != nil {
 			return
+		}
+
+		// a cache which is not maintained anymore must not survive
+		if !es.mustCache() {
+			db.cache.drop(o)
 		}
 
 		return db.saveSchema(o, es, true)
